@@ -355,7 +355,7 @@ def clause_digit_capacity(facts, rep):
     rep.require(n >= 12, 'C02.digit-capacity: %d subscripts of the digit array found (>= 12 expected)' % n)
 
 
-def clause_setup_bound(facts, rep):
+def clause_setup_bound(facts, rep, classes=('sonic_json::SAXHandler', 'sonic_json::SchemaHandler')):
     """'succeeds for every valid text' / the handler never refuses a node of a valid text: SetUp() is evaluated
     (sv/minterp.py) for text lengths 0..400 and a few large ones; the node-stack capacity it records must be at least
     the largest number of simultaneously live nodes a valid text of that length can have, (len + 1) / 2 - the root
@@ -363,7 +363,7 @@ def clause_setup_bound(facts, rep):
     from ..minterp import Interp, Unsupported, UndefinedBehaviour
     n = 0
     for f in facts.functions:
-        if f.short != 'SetUp' or f.cls_qn not in ('sonic_json::SAXHandler', 'sonic_json::SchemaHandler') or len(f.params) != 1:
+        if f.short != 'SetUp' or f.cls_qn not in classes or len(f.params) != 1:
             continue
         if 'SAlloc' in f.name or 'SimpleAllocator' in f.name:
             continue
@@ -392,7 +392,7 @@ def clause_setup_bound(facts, rep):
             raise AnalysisBroken('C02: %s cannot be evaluated: %s' % (f.name, ex))
         n += 1
         rep.check(bad is None, 'E5.setup-bound', f.qn, 'capacity after SetUp(len) >= (len + 1) / 2 for %d evaluated lengths' % cnt, f.loc, bad or '', facts.config)
-    rep.require(n >= 2, 'C02: SetUp of the SAX handlers found: %d (2 expected)' % n)
+    rep.require(n >= len(classes), 'C02: SetUp of the SAX handlers found: %d (%d expected)' % (n, len(classes)))
 
 
 def run(rep, tier):
